@@ -308,12 +308,14 @@ type LookupPP struct {
 	When string            // "after-inst" | "properties" | "before"
 	run  *Run
 	done map[string]bool
+	// Always: the lookup is repeated every time the callback runs for the component (not only the first time)
+	Always bool
 }
 
 func (p *LookupPP) Naming() string { return "verif.lookuppp" }
 func (p *LookupPP) Bind(r *Run)    { p.run, p.done = r, map[string]bool{} }
 func (p *LookupPP) look(when, name string) {
-	if t, ok := p.Plan[name]; ok && p.When == when && !p.done[name] {
+	if t, ok := p.Plan[name]; ok && p.When == when && (!p.done[name] || p.Always) {
 		p.done[name] = true
 		p.run.UserLookup(t)
 	}
